@@ -75,15 +75,15 @@ def parseEntry (s : String) : Option Entry :=
 
 structure Drag where
   button : Int := 0
-  line : Int := -1
-  col : Int := -1
+  line : Int := 0
+  col : Int := 0
   dragging : Bool := false
   source : Option Id := none
 deriving Repr, Inhabited
 
 
 structure DSt where
-  st : St := newSt cfg 0 0
+  st : St := newSt 0 0
   started : Bool := false
   dead : Option String := none        -- the model reached `ub` / ran out of fuel earlier in this history
   drag : Drag := {}                   -- the specification's own press memory and drag state
@@ -105,7 +105,7 @@ def modelStep (d : DSt) (ts : List String) : DSt × String :=
   match ts with
   | ["new", l, c] =>
     match ints? [l, c] with
-    | some [l, c] => let st := newSt cfg l c; ({ st := st, started := true }, obsLine [] st.tree)
+    | some [l, c] => let st := newSt l c; ({ st := st, started := true }, obsLine [] st.tree)
     | _ => (d, "bad-op")
   | _ =>
   if !d.started then (d, "bad-op") else
